@@ -34,7 +34,8 @@ type c10Plan struct {
 	ReadSize   int `json:"read_size,omitempty"`
 	// QueueBefore > 0: before it reads the response the client queues that many bytes of its next message without
 	// sending them: what the response announces (a packet size) meets a partly filled packet.
-	QueueBefore int `json:"queue_before,omitempty"`
+	QueueBefore  int `json:"queue_before,omitempty"`
+	QueueBeforeN int `json:"queue_before_n,omitempty"`
 }
 
 type c10 struct{}
@@ -52,6 +53,10 @@ func c10SecondResponse() []byte {
 func init() { Register(c10{}) }
 
 func (c10) ID() string { return "C10" }
+
+// c10PackPasses: how often the announced packet sizes are run (first pass plain, the others with a request begun
+// before the response is read, each under its own schedule).
+const c10PackPasses = 12
 
 // c10PackSizes are the packet sizes a hostile server announces (TDS_ENV_PACKSIZE carries the number as text).
 var c10PackSizes = []string{"0", "1", "4", "7", "8", "9", "10", "16", "-1", "-5", "-512", "-2147483648", "-9223372036854775808",
@@ -186,7 +191,7 @@ func c10LenTypes() []peer.Entry {
 var c10CrossSeqs = [][]byte{{0xD1, 0xD1}, {0xD1, 0xD7}, {0xD7, 0xD1}, {0xD7, 0xD7}, {0xD7, 0xD7, 0xD1}, {0xD1, 0xD1, 0xD7}}
 
 func (c10) NRuns(tier string) int {
-	n := c10BuildEnum(tier).total + len(c10LenTypes())*256 + 10*2*24 + len(fmtNames)*len(c10CrossSeqs) + 2*len(c10PackSizes) + len(c10Dribbles)
+	n := c10BuildEnum(tier).total + len(c10LenTypes())*256 + 10*2*24 + len(fmtNames)*len(c10CrossSeqs) + c10PackPasses*len(c10PackSizes) + len(c10Dribbles)
 	if tier == "thorough" {
 		return n + 3000000
 	}
@@ -323,12 +328,16 @@ func c10Gen(r *Rand, idx int, tier string) *c10Plan {
 		return p
 	}
 	i -= len(fmtNames) * len(c10CrossSeqs)
-	if i < 2*len(c10PackSizes) {
-		// an environment change announcing a packet size; the client's next request uses it (second pass: the next
-		// request was begun before the response was read)
+	if i < c10PackPasses*len(c10PackSizes) {
+		// an environment change announcing a packet size; the client's next request uses it (from the second pass
+		// on: the next request was begun before the response was read - the further passes repeat that under other
+		// schedules, the reader applies the size while the client is writing)
 		val := c10PackSizes[i%len(c10PackSizes)]
 		if i >= len(c10PackSizes) {
 			p.QueueBefore = 100
+		}
+		if i >= 2*len(c10PackSizes) {
+			p.QueueBeforeN = 30 // about eight packets are opened while the reader applies the size
 		}
 		body := append(peer.EnvChange(peer.EnvMember{Type: 4, New: val, Old: "512"}), peer.Done(0, 0, 0)...)
 		p.Kind, p.Subject = "packsize", "ENVCHANGE"
@@ -336,7 +345,7 @@ func c10Gen(r *Rand, idx int, tier string) *c10Plan {
 		p.Wire = hex.EncodeToString(c10Wrap(body))
 		return p
 	}
-	i -= 2 * len(c10PackSizes)
+	i -= c10PackPasses * len(c10PackSizes)
 	if i < len(c10Dribbles) {
 		// a package that announces 65535 items and then arrives a few bytes per packet: every arriving packet makes
 		// the channel parse the package again from its start
@@ -452,7 +461,17 @@ func (c10) Run(plan interface{}, schedSeed uint64, replay []simrt.Choice, lenien
 	}
 	var ms0, ms1 runtime.MemStats
 	runtime.ReadMemStats(&ms0)
-	cfg := simrt.Config{Seed: schedSeed, Strategy: "uniform", ColdQueueLocks: true, EOFReadCostMs: 200, MaxSteps: 60000, Replay: replay, Lenient: lenient, KeepLog: keepLog}
+	cfg := simrt.Config{Seed: schedSeed, Strategy: "uniform", ColdQueueLocks: p.Kind != "packsize", EOFReadCostMs: 200, MaxSteps: 60000, Replay: replay, Lenient: lenient, KeepLog: keepLog}
+	if h := Mix(schedSeed, 77, 3); p.Kind == "packsize" && p.QueueBefore > 0 && h%2 == 0 {
+		// half of these runs hold the client back where it reads the packet size, so that the reader's store of the
+		// announced size lands around - and between - those reads
+		for id, si := range Sites {
+			if si.Op == "atomic-method" && strings.HasSuffix(si.Func, ".PacketSize") {
+				cfg.Strategy, cfg.TargetSite = "target", id
+				cfg.TargetNth = 4 + 2*int(h/2%3) // the second read of a pair: 4, 6, 8 (4: the first packet of the queued request)
+			}
+		}
+	}
 	packets := [][]byte{wire}
 	if p.PacketBody > 0 {
 		// re-cut a stream of well-formed packets of one message
@@ -479,7 +498,7 @@ func (c10) Run(plan interface{}, schedSeed uint64, replay []simrt.Choice, lenien
 		}
 	}
 	got := runResp(cfg, respDelivery{Packets: packets, TermAt: -1},
-		respClient{QueueSize: 100, ReadTimeoutS: 1, DebugLog: p.DebugLog, DrainFor: 5 * time.Second, NoDump: true, SendAfter: 600, Render: true, ReadSizes: readSizes, QueueBefore: p.QueueBefore, AnswerAfter: c10SecondResponse()})
+		respClient{QueueSize: 100, ReadTimeoutS: 1, DebugLog: p.DebugLog, DrainFor: 5 * time.Second, NoDump: true, SendAfter: 600, Render: true, ReadSizes: readSizes, QueueBefore: p.QueueBefore, QueueBeforeN: p.QueueBeforeN, AnswerAfter: c10SecondResponse()})
 	runtime.ReadMemStats(&ms1)
 	out := got.Out
 	StdOutcome(v, out)
